@@ -52,6 +52,16 @@ def run(R):
             salt = S.rs(R.rng, alpha, sl)
             for end in (b"", b"$", b"$$", b"$$x", b"$" + S.rs(R.rng, S.A64, 22)):
                 ops.append(CS.crypt_op(R.rng.choice(["rn", "r"]), 0, b"pw", head + salt + end)); meta.append((m, "limit:" + ("bare" if not end else "dollar" * end.count(b"$")), 2, len(head) + sl + len(end)))
+    # fixed structural corpus, whatever the seed: every method's canonical setting with each spelling of what may follow the salt - nothing, `$`,
+    # `$$`, an extra `$`-separated field of alphabet / of other passwd-safe characters, a complete hash followed by more text - and the complete
+    # hash of the bare setting; whatever succeeds must have the documented shape (seeded/C06c was caught or missed depending on the seed)
+    digest_len = {"yescrypt": 43, "gost_yescrypt": 43, "scrypt": 43, "sha512crypt": 86, "sha256crypt": 43, "sha1crypt": 28, "sunmd5": 22, "md5crypt": 22, "nt": 32,
+                  "bsdicrypt": 11, "descrypt": 11, "bigcrypt": 11, "bcrypt": 31, "bcrypt_a": 31, "bcrypt_x": 31, "bcrypt_y": 31}
+    for m in S.METHODS:
+        base = S.CANON[m]
+        fake = S.rs(R.rng, S.A64, digest_len[m])
+        for tail in (b"", b"$", b"$$", b"$x", b"$" + fake, b"$" + fake + b"$", b"$" + fake + b"$x", b"$$" + fake, b"$#junk%,(x)$", b"$abc$def$", b"$" + fake + b"x", fake):
+            ops.append(CS.crypt_op(R.rng.choice(["rn", "r"]), 0, b"pw", base + tail)); meta.append((m, "structure:" + ("bare" if not tail else "tail"), 2, len(base) + len(tail)))
     ops, meta, il, ml = CS.run_budgeted(R, ops, meta, group_starts=list(range(len(ops))))
     diffs = compare(R, ops, il, ml, CS.proj_crypt, "hash shape")
     bad = []
